@@ -93,12 +93,18 @@ ASSUMPTIONS = [
 ]
 RULE = ('grid: nensembles 1..8 x nprocesses 1..8 x noise_mode {single, flip} x ensemble_noise {0, 0.05, 2.0} x cap {None, 2, 3, 4}; quick samples '
         'the grid, thorough enumerates nensembles x nprocesses x mode x level completely for ensemble_sift and samples complete_ensemble_sift; signals from the tones / chirp / noise / '
-        'walk families, n in 48..128; numpy seed per case; random worker delays in 60% of the cases. Non-trivial: nensembles >= 2, '
+        'walk families, n in 48..128, amplitude x1 / x0.01 / x250 and (20 % + corpus) the same signals in other physical units x1e-13 / x1e-6 / x1e6 '
+        '(there also the level 0.005); all tolerances relative to the signal amplitude; numpy seed per case; random worker delays in 60% of the cases. Non-trivial: nensembles >= 2, '
         'nprocesses >= 2 and non-zero noise. Instance check on the multiset of sifted signals S_j (d_j = S_j - X): single mode = exactly '
         'nensembles signals with pairwise distinct d_j; flip mode = 2*nensembles signals that pair up as (nu, -nu) with pairwise distinct nu; '
         'result = zero-padded per-IMF mean of the public sift of those signals; zero noise = classic sift with the same cap. '
-        'complete_ensemble_sift additionally: per stage the members (residual +/- noise column) have pairwise distinct non-zero noise, and '
-        'the noise matrix of every stage (fan-outs 0..K-1 and the returned matrix) has pairwise distinct non-zero columns.')
+        'At a non-zero level no member sifts the bare input, no two members\' noise are rescaled / shifted / perturbed copies of one '
+        'realisation (|correlation| >= 0.999), and (single mode) the result is not the classic sift; sifts of the bare input beside the '
+        'members (a warm-up run) are set aside; any other number of traced sifts is mechanism-level. '
+        'complete_ensemble_sift additionally: per stage the members (residual +/- noise column) have pairwise distinct non-zero noise; the '
+        'noise a member gets at a later fan-out is what is left of ITS OWN column (never column a minus the first mode of column b: '
+        'scheduling dependent, nprocesses >= 2, replay cases repeat the call up to 6 times); zero noise = the columns of the classic sift; '
+        'mechanism-level: the noise matrix of every stage (fan-outs 0..K-1 and the returned matrix) has pairwise distinct non-zero columns.')
 
 MODEL_DRAW = 'parent'        # where the modelled code draws the member noise ('fork' = pinned code, inside the worker)
 LEVELS = [0.0, 0.05, 2.0]
